@@ -243,3 +243,15 @@ def run(seed, tier, driver):
         pool = SG.message_pool(full['remote_as'])
         random_walk(conf, driver, res, r, pool, r.choice([20, 40, 80]), r.choice(['session', 'session', 'chaos', 'timers']))
     return res
+
+
+def replay_witness(wit, driver):
+    """replays the recorded history of a known finding on the implementation (and the model); returns the failures"""
+    res = SuiteResult('session-witness')
+    p = Pair(wit['cfg'], driver, res)
+    for ev in wit['events']:
+        if not p.sim.enabled(ev):
+            res.notes.append('witness event not enabled: %r' % (ev,))
+            break
+        p.step(ev)
+    return res
